@@ -89,8 +89,8 @@ theorem targetOk_spec {g : Grammar} {t : Table} {s : Nat} {st : State} (hs : t.s
     · rename_i pr hpr; exact ⟨pr, hpr, hrhs⟩
     · simp at hrhs
 
-theorem Cert.structural_sound (g : Grammar) (t : Table) (start aug : Nat)
-    (h : Cert.structural g t start aug = true) : Structural g t start aug := by
+theorem Cert.structural_sound (g : Grammar) (t : Table) (start aug sym : Nat)
+    (h : Cert.structural g t start aug sym = true) : Structural g t start aug sym := by
   unfold Cert.structural at h
   simp only [Bool.and_eq_true] at h
   obtain ⟨⟨⟨h1, h2⟩, h3⟩, h4⟩ := h
